@@ -13,6 +13,7 @@ package main
 import (
 	"bytes"
 	"crypto/sha256"
+	"encoding/json"
 	"flag"
 	"fmt"
 	"go/ast"
@@ -938,31 +939,95 @@ var pinnedFns = map[*ast.FuncDecl]bool{}
 // the Lean string `rest_<label>`. Together with src nothing in the package can change without a Tie theorem
 // noticing. Call it after the src calls for the package.
 func (g *genFile) rest(p *pkg, label string) {
-	var parts []string
+	var parts, names, ignored []string
 	for _, f := range p.sortedFiles() {
 		if strings.HasSuffix(f, "_test.go") || strings.HasSuffix(f, "_verif.go") {
 			continue
 		}
-		parts = append(parts, "FILE "+filepath.Base(f)+" ["+buildConstraint(filepath.Join(p.dir, filepath.Base(f)))+"]")
+		fileParts := []string{"FILE " + filepath.Base(f) + " [" + buildConstraint(filepath.Join(p.dir, filepath.Base(f))) + "]"}
+		nIgnored := len(ignored)
 		for _, d := range p.files[f].Decls {
 			if fd, ok := d.(*ast.FuncDecl); ok {
 				if pinnedFns[fd] {
 					continue
 				}
-				parts = append(parts, p.funcText(fd))
+				if restIgnorable(label, fd) {
+					ignored = append(ignored, fd.Name.Name)
+					continue
+				}
+				names = append(names, fd.Name.Name)
+				fileParts = append(fileParts, p.funcText(fd))
 				continue
 			}
 			t := normWS(stripComments(p.src(d)))
 			if len(t) > 4000 { // large tables (the word lists) are tied separately; here by digest
 				t = fmt.Sprintf("<%d characters, sha256 %x>", len(t), sha256.Sum256([]byte(t)))
 			}
-			parts = append(parts, t)
+			fileParts = append(fileParts, t)
 		}
+		// a file that contributes nothing but ignorable functions (and its package clause / imports) is left out altogether
+		if len(ignored) > nIgnored && onlyImports(fileParts[1:]) {
+			continue
+		}
+		parts = append(parts, fileParts...)
 	}
 	txt := strings.Join(parts, " ;; ")
 	lname := "rest_" + label
+	restNamesSeen[label] = names
+	for _, n := range ignored {
+		fmt.Fprintf(&g.b, "-- rest_%s: plain function %s is not in the snapshot and is left out (nothing pinned or translated refers to it, else that text would differ)\n", label, n)
+		fmt.Printf("extract: NOTE rest_%s: new plain function %s left out of the pin\n", label, n)
+	}
 	fmt.Fprintf(&g.b, "def %s : String := %s\n", lname, leanString(txt))
 	expect = append(expect, [2]string{g.name + "." + lname, leanString(txt)})
+}
+
+// restNames is the committed list (lean/Iota/Tie/rest_names.json, written together with Expect.lean by -expect) of the
+// plain functions each rest_<label> pin contained when the snapshot was taken.  A plain function (no receiver, not
+// init) that is NOT in that list and is not pinned or translated one by one is left out of the pin: it is new, and
+// nothing the models were written from can refer to it without its own pinned text (or translation) changing, which
+// the other ties notice.  Exceptions that stay in the pin (and so raise the alarm): methods (they change method sets
+// and interface satisfaction), init functions, names of the universe scope (a package-level `len` or `min` silently
+// changes the meaning of unchanged text), and every non-function declaration (a new variable's initialiser runs).
+// Without the file every function is pinned, as before.
+var restNames map[string][]string
+var restNamesSeen = map[string][]string{}
+
+func loadRestNames() {
+	b, err := os.ReadFile(filepath.Join(*out, "..", "Tie", "rest_names.json"))
+	if err != nil {
+		return
+	}
+	m := map[string][]string{}
+	if json.Unmarshal(b, &m) == nil {
+		restNames = m
+	}
+}
+
+func restIgnorable(label string, fd *ast.FuncDecl) bool {
+	known, ok := restNames[label]
+	if !ok || fd.Recv != nil || fd.Name.Name == "init" || fd.Name.Name == "_" || fd.Type.TypeParams != nil {
+		return false
+	}
+	if types.Universe.Lookup(fd.Name.Name) != nil {
+		return false
+	}
+	for _, k := range known {
+		if k == fd.Name.Name {
+			return false
+		}
+	}
+	return true
+}
+
+// onlyImports: the remaining declarations of a file are import declarations only
+func onlyImports(parts []string) bool {
+	for _, t := range parts {
+		if !strings.HasPrefix(t, "import ") && !strings.HasPrefix(t, "import(") {
+			return false
+		}
+	}
+	return true
 }
 
 func leanString(s string) string {
@@ -1152,6 +1217,9 @@ func main() {
 	if err := os.MkdirAll(*out, 0o755); err != nil {
 		die("%v", err)
 	}
+	if *expectOut == "" {
+		loadRestNames()
+	}
 	if n := runGenerators(); n > 0 {
 		os.Exit(2)
 	}
@@ -1164,6 +1232,11 @@ func main() {
 		}
 		b.WriteString("\nend Iota.Tie.Expect\n")
 		if err := os.WriteFile(*expectOut, []byte(b.String()), 0o644); err != nil {
+			die("%v", err)
+		}
+		// the plain functions each rest pin contains now (see restNames)
+		jb, _ := json.MarshalIndent(restNamesSeen, "", " ")
+		if err := os.WriteFile(filepath.Join(filepath.Dir(*expectOut), "rest_names.json"), append(jb, '\n'), 0o644); err != nil {
 			die("%v", err)
 		}
 	}
